@@ -1,7 +1,7 @@
 //! C07: signature parser / validator / printer / splitter. Exhaustive over the 19 type characters up
 //! to a length bound, depth/length boundary families, grammar-generated valid signatures and their
 //! single-character mutations, random strings with foreign characters.
-use crate::common::*;
+use vcore::common::*;
 use rustbus::params::validate_signature;
 use rustbus::signature::{SignatureIter, Type};
 use rustbus::wire::SignatureWrapper;
